@@ -10,3 +10,4 @@ CONSTANTS
   Resizes <- NoResize
   MaxDepth = 2
   Emit = TRUE
+  CheckDump = FALSE
